@@ -83,6 +83,13 @@ pub enum Ev {
     /// what the priority listener task does when a keyframe hint arrives: publish on priority.window
     /// (from a task of its own, never from the loop)
     PublishWindow,
+    /// run-time switch of the scheduling mode (true = classic)
+    Mode(bool),
+    /// run-time switch of the stall guard
+    Guard(bool),
+    /// a heavy second without intermediate ACKs in which the receiver reports the first `count` datagrams link `l`
+    /// carried as lost (SRT NAKs, relayed to the client like any receiver datagram), then acknowledges the rest
+    SecHeavyNak(usize, u32),
 }
 
 /// universe of uplink addresses (127.0.0.2 ...) a reload scenario may list
@@ -156,6 +163,10 @@ impl LoopModel {
             8 => {
                 events = vec![Ev::Sec, Ev::SecIdle, Ev::Flood];
             }
+            // run-time mode switches around a link that loses its share
+            9 => {
+                events = vec![Ev::SecHeavy, Ev::Fault(1, Mode::DataHole), Ev::Repair(1), Ev::Mode(true), Ev::Mode(false), Ev::SecHeavyNak(1, 100), Ev::SecIdle, Ev::Guard(false), Ev::Guard(true)];
+            }
             // a control client that never reads its subscription
             _ => {
                 events.extend([Ev::FrozenSubscriber("stats"), Ev::FrozenSubscriber("priority.window"), Ev::PublishWindow, Ev::Fault(1, Mode::BlackHole), Ev::Repair(1)]);
@@ -164,7 +175,7 @@ impl LoopModel {
         let name = format!(
             "real loop links={n} timeout={timeout} mode={} alphabet={}",
             if classic { "classic" } else { "enhanced" },
-            ["streaming", "faults", "bind-faults", "long-outage", "reloads", "frozen-subscribers", "heavy-stream", "data-hole", "flood"][if level >= 6 { level.min(8) as usize } else { level.min(5) as usize }]
+            ["streaming", "faults", "bind-faults", "long-outage", "reloads", "frozen-subscribers", "heavy-stream", "data-hole", "flood", "mode-switches"][if level >= 6 { level.min(9) as usize } else { level.min(5) as usize }]
         );
         Self { n, timeout, classic, events, name, single_thread: level == 4 || level == 6 || level == 7, lockstep: false, start_fault: false }
     }
@@ -220,6 +231,8 @@ struct LinkMon {
     cc_seeded: bool,
     /// consecutive passes that reported the link weak for low share / no traffic
     share_weak_run: u32,
+    /// the verdict published by the previous pass
+    weak_prev: bool,
     /// not-weak passes still owed after a run of 15
     probation_owed: u32,
 }
@@ -301,6 +314,7 @@ fn fresh_link(now: u64) -> LinkMon {
         cc_prev: None,
         cc_seeded: false,
         share_weak_run: 0,
+        weak_prev: false,
         probation_owed: 0,
     }
 }
@@ -619,8 +633,25 @@ impl<'a> Run<'a> {
             {
                 let share_weak = st.weak && (st.weak_reason == "low_share" || st.weak_reason == "no_traffic");
                 if std::env::var("VERIF_TRACE").is_ok() && l == 1 {
-                    eprintln!("TRACE weak link {l} +{now}: weak {} reason {} share {} thr {} run {}", st.weak, st.weak_reason, st.weak_share_permille, st.weak_threshold_permille, self.links[l].share_weak_run);
+                    eprintln!("TRACE weak link {l} +{now}: weak {} reason {} share {} thr {} run {} | windows {:?} in-flight {:?} naks {:?}", st.weak, st.weak_reason, st.weak_share_permille, st.weak_threshold_permille, self.links[l].share_weak_run, (0..2).filter_map(|j| row[j].as_ref().map(|x| x.window)).collect::<Vec<_>>(), (0..2).filter_map(|j| row[j].as_ref().map(|x| x.in_flight)).collect::<Vec<_>>(), (0..2).filter_map(|j| row[j].as_ref().map(|x| x.nak_count)).collect::<Vec<_>>());
                 }
+                // entering weak for low share requires a share below a quarter of fair share: judged on the verdicts the
+                // loop publishes, with the share recomputed from the bitrates of the same snapshot
+                if st.weak && st.weak_reason == "low_share" && !self.links[l].weak_prev {
+                    let conn: Vec<u64> = (0..n).filter_map(|j| row[j].as_ref()).filter(|x| x.connected).map(|x| x.bitrate_bytes_per_sec as u64).collect();
+                    let total: u64 = conn.iter().sum();
+                    if total > 0 && !conn.is_empty() {
+                        let share = st.bitrate_bytes_per_sec as u64 * 1000 / total;
+                        let quarter = 250 / conn.len() as u64;
+                        if share > quarter + 15 {
+                            return Err(Fail::new(
+                                "real:weak-entered-above-a-quarter-of-fair-share",
+                                format!("link {l} at +{now} ms: reported weak for low share although the previous pass reported it not weak and its share of the measured rate is {share} permille ({} connected links: a quarter of fair share is {quarter} permille; the classifier reports share {} against threshold {})", conn.len(), st.weak_share_permille, st.weak_threshold_permille),
+                            ));
+                        }
+                    }
+                }
+                self.links[l].weak_prev = st.weak;
                 let k = &mut self.links[l];
                 if k.probation_owed > 0 {
                     if st.weak && st.weak_reason != "bypassed" {
@@ -1166,6 +1197,54 @@ impl<'a> Run<'a> {
                 self.links[l].mode = Mode::Ok;
                 Ok(())
             }
+            Ev::Mode(classic) => {
+                self.rig.config.set_mode(if classic { SchedulingMode::Classic } else { SchedulingMode::Enhanced });
+                Ok(())
+            }
+            Ev::Guard(on) => {
+                self.rig.config.set_stall_deselect(on);
+                Ok(())
+            }
+            Ev::SecHeavyNak(l, count) if l < n => {
+                let hk = self.next_hk;
+                let mut k = 0u32;
+                let first = self.next_seq;
+                while self.now() + 7 < hk - 60 && k < 285 {
+                    let t = self.now() + 3;
+                    self.to(t).await?;
+                    let seq = self.next_seq;
+                    self.next_seq += 1;
+                    self.client(srt_data(seq, false, seq, 1316)).await?;
+                    k += 1;
+                }
+                let t = (self.now() + 31).min(hk - 20);
+                self.to(t).await?;
+                self.check_forwarded()?;
+                // the receiver reports the first `count` datagrams it got over link l as lost
+                let mut lost: Vec<u32> = Vec::new();
+                for (p, c) in &self.copies {
+                    if p.len() >= 4 && p[0] & 0x80 == 0 {
+                        let seq = u32::from_be_bytes([p[0], p[1], p[2], p[3]]);
+                        if seq >= first && c.first().map(|x| x.0) == Some(l) {
+                            lost.push(seq);
+                        }
+                    }
+                }
+                lost.sort_unstable();
+                lost.truncate(count as usize);
+                let via = (0..n).find(|j| self.links[*j].present && self.links[*j].mode == Mode::Ok && self.links[*j].rec_known);
+                if let Some(via) = via {
+                    for q in lost {
+                        let mut p = vec![0x80u8, 0x03, 0, 0, 0, 0, 0, 0, 0, 0, 0, 0, 0, 0, 0, 0];
+                        p[4..8].copy_from_slice(&q.to_be_bytes());
+                        // unique per NAK, so that the relay ledger tells them apart
+                        p[8..12].copy_from_slice(&(0x4e41_0000u32 + (q & 0xffff)).to_be_bytes());
+                        self.relay(via, p).await?;
+                    }
+                }
+                self.acks().await?;
+                self.to(hk).await
+            }
             Ev::PublishWindow => {
                 let hub = self.rig.hub.clone();
                 let k = self.cov.frozen_subscribers;
@@ -1428,7 +1507,13 @@ pub fn explore(rep: &mut Report, m: &LoopModel, plan: &RealPlan, keys: &[&str], 
             *other.entry(f.key.clone()).or_insert(0) += 1;
             continue;
         }
-        // every failure is replayed twice from scratch before it counts
+        // every failure that is kept as an artefact is replayed twice from scratch before it counts; once three of a
+        // kind are confirmed the others are counted as they came (replaying thousands of them one after the other
+        // on this thread is what made a run with a systematic failure take an hour)
+        if rep.violations.iter().filter(|x| x.key == f.key).count() >= 3 {
+            rep.count_violation(&f.key, 1);
+            continue;
+        }
         let again: Vec<Option<String>> = (0..2).map(|_| run_path(m, &paths[i]).fail.map(|x| x.1.key)).collect();
         if again.iter().any(|k| k.as_deref() != Some(f.key.as_str())) {
             if rep.machinery_errors.len() < 5 {
@@ -1513,7 +1598,7 @@ pub fn keys_of(prop: &str) -> &'static [&'static str] {
         "C09" => &["real:receiver-datagram-not-relayed", "real:client-received-unexpected-datagram"],
         "C14" => &["real:keepalive", "real:housekeeping-pass-stalled"],
         "C16" => &["real:cc-target"],
-        "C17" => &["real:no-probation"],
+        "C17" => &["real:no-probation", "real:weak-entered"],
         "C19" => &["real:reload", "real:refused-reload", "real:datagram-from-unknown-source"],
         "C20" => &["real:housekeeping-pass-stalled"],
         _ => &[],
@@ -1594,6 +1679,36 @@ pub fn plans_of(prop: &str, quick: bool) -> Vec<(LoopModel, RealPlan)> {
                 paths.push(p);
             }
             v.push((m, RealPlan::Explicit { name: "data-hole-with-a-reload".into(), paths }));
+            // the same data hole, then a stay in classic mode (link repaired, its window lowered by a NAK run so that
+            // its classic share lies between the entering and the leaving threshold) and back: every length of the
+            // weak run before the switch, every length of the stay
+            let m = LoopModel::new(2, 5000, false, 9);
+            let (heavy, hole, repair, classic, enhanced, naks) = (
+                m.index_of(Ev::SecHeavy),
+                m.index_of(Ev::Fault(1, Mode::DataHole)),
+                m.index_of(Ev::Repair(1)),
+                m.index_of(Ev::Mode(true)),
+                m.index_of(Ev::Mode(false)),
+                m.index_of(Ev::SecHeavyNak(1, 100)),
+            );
+            let guard_off = m.index_of(Ev::Guard(false));
+            let mut paths = Vec::new();
+            // the weak run starts about eleven passes after the hole opens
+            let runs: Vec<usize> = if quick { vec![13, 18] } else { (10..=28).collect() };
+            let stays: Vec<usize> = if quick { vec![2, 5] } else { (1..=8).collect() };
+            for run in &runs {
+                for stay in &stays {
+                    let mut p = vec![heavy, heavy, heavy, hole];
+                    p.extend(std::iter::repeat(heavy).take(*run));
+                    // classic with the guard off (C10's setting): the repaired link is routed to again, by its window
+                    p.extend([classic, guard_off, repair, naks]);
+                    p.extend(std::iter::repeat(heavy).take(*stay));
+                    p.push(enhanced);
+                    p.extend(std::iter::repeat(heavy).take(4));
+                    paths.push(p);
+                }
+            }
+            v.push((m, RealPlan::Explicit { name: "data-hole-classic-stay-and-back".into(), paths }));
         }
         "C20" => {
             v.push((LoopModel::new(2, 5000, false, 5), RealPlan::Full { depth: if quick { 3 } else { 4 } }));
